@@ -49,7 +49,7 @@ def win_entries(inp):
 class RngIndex:
     """Maps a logged rng key to its index in the split chain of the node's initial key (-1 if absent)."""
 
-    def __init__(self, initial_rng, n=400, limit=6400):
+    def __init__(self, initial_rng, n=400, limit=204800):
         self.maps, self.last, self.limit = {}, {}, limit
         for name, words in initial_rng.items():
             ch = probes.rng_chain(onp.array(words, dtype=onp.uint32), n)
